@@ -8,13 +8,12 @@
 //! Every call into the library is wrapped in catch_unwind; a panic is reported, never swallowed.
 #![allow(clippy::all)]
 use std::panic::{self, AssertUnwindSafe};
-use std::str::FromStr;
 use std::time::Duration;
 
 use bitcoin::bech32::primitives::decode::CheckedHrpstring;
 use bitcoin::bech32::{Bech32, ByteIterExt, Fe32, Fe32IterExt, Hrp, NoChecksum};
 use bitcoin::hashes::{sha256, Hash};
-use bitcoin::secp256k1::{Keypair, Message, PublicKey, Secp256k1, SecretKey};
+use bitcoin::secp256k1::{Keypair, PublicKey, Secp256k1, SecretKey};
 use bitcoin::{Network, PubkeyHash, ScriptHash, WitnessVersion};
 
 use lightning::blinded_path::message::BlindedMessagePath;
@@ -217,6 +216,11 @@ fn eval_line(l: &str) -> String {
 				Err(e) => format!("Err {}", b11_err_class(&e)),
 			}
 		},
+		// checksummed string from an hrp and data symbols (charset characters)
+		"enc" => {
+			let d: Vec<u8> = b.bytes().filter_map(|c| fe_of_char(c)).collect();
+			match encode_checked(a, &d) { Some(x) => format!("Ok {}", hex(x.as_bytes())), None => "Err".into() }
+		},
 		"to5" => unhex(a)
 			.iter()
 			.copied()
@@ -241,6 +245,31 @@ fn eval_line(l: &str) -> String {
 					r.amount_pico_btc().map(|x| x.to_string()).unwrap_or("none".into())
 				),
 				Err(e) => format!("Err {}", format!("{:?}", e).split('(').next().unwrap()),
+			}
+		},
+		// Bolt11Invoice::from_signed on a freshly signed raw invoice carrying the given hrp: the
+		// semantic amount check (sub-millisatoshi amounts are refused)
+		"amtchk" => {
+			let secp = Secp256k1::new();
+			let sk = SecretKey::from_slice(&[41; 32]).unwrap();
+			let base = InvoiceBuilder::new(Currency::Bitcoin)
+				.description("x".into())
+				.payment_hash(PaymentHash([1; 32]))
+				.payment_secret(PaymentSecret([2; 32]))
+				.duration_since_epoch(Duration::from_secs(1000))
+				.min_final_cltv_expiry_delta(18)
+				.build_raw()
+				.unwrap();
+			let (_, data) = base.to_raw();
+			match RawBolt11Invoice::from_raw(a, &data) {
+				Err(_) => "RawErr".into(),
+				Ok(raw) => {
+					let signed = raw.sign::<_, ()>(|h| Ok(secp.sign_ecdsa_recoverable(h, &sk))).unwrap();
+					match Bolt11Invoice::from_signed(signed) {
+						Ok(i) => format!("Ok {}", i.amount_milli_satoshis().map(|x| x.to_string()).unwrap_or("none".into())),
+						Err(e) => format!("Err {:?}", e),
+					}
+				},
 			}
 		},
 		// InvoiceBuilder::amount_milli_satoshis -> hrp string
@@ -314,29 +343,37 @@ fn eval_line(l: &str) -> String {
 // BOLT 11 generation, round trip judge, mutation streams
 // ------------------------------------------------------------------------------------------------
 
-fn rbytes(r: &mut Rng, n: usize) -> Vec<u8> {
+/// splitmix64 (the harness crate's `Rng`) behind a `Cell`, so generators can be nested freely.
+struct R(std::cell::Cell<u64>);
+impl R {
+	fn new(seed: u64) -> R { R(std::cell::Cell::new(seed)) }
+	fn next(&self) -> u64 { let mut g = Rng(self.0.get()); let v = g.next(); self.0.set(g.0); v }
+	fn below(&self, n: u64) -> u64 { if n == 0 { 0 } else { self.next() % n } }
+}
+
+fn rbytes(r: &R, n: usize) -> Vec<u8> {
 	(0..n).map(|_| r.next() as u8).collect()
 }
-fn r32(r: &mut Rng) -> [u8; 32] {
+fn r32(r: &R) -> [u8; 32] {
 	let mut a = [0u8; 32];
 	a.copy_from_slice(&rbytes(r, 32));
 	a
 }
-fn pick<T: Clone>(r: &mut Rng, xs: &[T]) -> T {
+fn pick<T: Clone>(r: &R, xs: &[T]) -> T {
 	xs[r.below(xs.len() as u64) as usize].clone()
 }
-fn some_sk(r: &mut Rng) -> SecretKey {
+fn some_sk(r: &R) -> SecretKey {
 	loop {
 		if let Ok(k) = SecretKey::from_slice(&r32(r)) {
 			return k;
 		}
 	}
 }
-fn some_pk(r: &mut Rng) -> PublicKey {
+fn some_pk(r: &R) -> PublicKey {
 	PublicKey::from_secret_key(&Secp256k1::new(), &some_sk(r))
 }
 
-fn rand_text(r: &mut Rng, max_bytes: usize) -> String {
+fn rand_text(r: &R, max_bytes: usize) -> String {
 	let alphabet = ["a", "Z", " ", "0", "\"", "\\", "é", "ß", "日", "本", "🍕", "\n", "1", "l", "n", "coffee", "~"];
 	let target = r.below(max_bytes as u64 + 1) as usize;
 	let mut s = String::new();
@@ -367,7 +404,7 @@ struct B11Spec {
 	sk: SecretKey,
 }
 
-fn gen_spec(r: &mut Rng, idx: usize) -> B11Spec {
+fn gen_spec(r: &R, idx: usize) -> B11Spec {
 	let currency = pick(r, &[Currency::Bitcoin, Currency::BitcoinTestnet, Currency::Regtest, Currency::Simnet, Currency::Signet]);
 	let max_msat = u64::MAX / 10;
 	let amounts: [Option<u64>; 16] = [
@@ -533,7 +570,7 @@ fn judge_altered(orig: &Bolt11Invoice, s: &str) -> Mo {
 		Err(()) => Mo::Violation("parse panicked".into()),
 		Ok(Err(_)) => Mo::Err,
 		Ok(Ok(p)) => {
-			if &p == orig || (p.signable_hash() == orig.signable_hash() && p.clone().into_signed_raw().signature() == orig.clone().into_signed_raw().signature()) {
+			if &p == orig || p.signable_hash() == orig.signable_hash() {
 				Mo::Same
 			} else if p.get_payee_pub_key() != orig.get_payee_pub_key() {
 				Mo::OtherKey
@@ -559,7 +596,7 @@ impl MutStats {
 }
 
 /// Every single-character change without touching the checksum: must fail to parse.
-fn mut_single_char(r: &mut Rng, s: &str, thorough: bool, st: &mut MutStats) {
+fn mut_single_char(r: &R, s: &str, thorough: bool, st: &mut MutStats) {
 	let chars: Vec<char> = s.chars().collect();
 	let sep = s.rfind('1').unwrap();
 	for i in 0..chars.len() {
@@ -593,7 +630,7 @@ fn mut_single_char(r: &mut Rng, s: &str, thorough: bool, st: &mut MutStats) {
 	}
 }
 
-fn gen_b11(r: &mut Rng, thorough: bool) {
+fn gen_b11(r: &R, thorough: bool) {
 	let n = if thorough { 400 } else { 60 };
 	let n_mut = if thorough { 60 } else { 8 };
 	let mut kept: Vec<(B11Spec, Bolt11Invoice)> = vec![];
@@ -781,12 +818,12 @@ fn wbytes<W: Writeable>(w: &W) -> Vec<u8> {
 	v
 }
 
-fn msg_path(r: &mut Rng) -> BlindedMessagePath {
+fn msg_path(r: &R) -> BlindedMessagePath {
 	let n = 1 + r.below(3) as usize;
 	let hops = (0..n).map(|_| BlindedHop { blinded_node_id: some_pk(r), encrypted_payload: rbytes(r, 20 + r.below(40) as usize) }).collect();
 	BlindedMessagePath::from_blinded_path(some_pk(r), some_pk(r), hops)
 }
-fn pay_path(r: &mut Rng) -> BlindedPaymentPath {
+fn pay_path(r: &R) -> BlindedPaymentPath {
 	let n = 1 + r.below(3) as usize;
 	let hops = (0..n).map(|_| BlindedHop { blinded_node_id: some_pk(r), encrypted_payload: rbytes(r, 20 + r.below(40) as usize) }).collect();
 	BlindedPaymentPath::from_blinded_path_and_payinfo(some_pk(r), some_pk(r), hops, BlindedPayInfo {
@@ -803,13 +840,13 @@ enum OfferKind { Explicit, ExplicitWithMeta, DerivedMeta, DerivedPaths }
 
 struct OfferOut { offer: Offer, kind: OfferKind, key: [u8; 32], nonce: Nonce, spec: String, expect: Vec<(String, String)> }
 
-fn gen_offer(r: &mut Rng, idx: usize, recipient: &Keypair, secp: &Secp256k1<bitcoin::secp256k1::All>) -> Result<OfferOut, String> {
+fn gen_offer(r: &R, idx: usize, recipient: &Keypair, secp: &Secp256k1<bitcoin::secp256k1::All>) -> Result<OfferOut, String> {
 	let kind = [OfferKind::Explicit, OfferKind::ExplicitWithMeta, OfferKind::DerivedMeta, OfferKind::DerivedPaths][idx % 4];
 	let key = r32(r);
 	let ek = ExpandedKey::new(key);
 	let nonce = Nonce::try_from(&rbytes(r, 16)[..]).unwrap();
 	let mut expect: Vec<(String, String)> = vec![];
-	let amount = match r.below(7) { 0 => None, 1 => Some(1), 2 => Some(1000), 3 => Some(MAX_MSAT), 4 => Some(MAX_MSAT + 1), 5 => Some(0), _ => Some(r.next() % MAX_MSAT) };
+	let amount = match r.below(14) { 0 | 6 | 7 => None, 1 => Some(1), 2 => Some(1000), 3 => Some(MAX_MSAT), 4 => Some(MAX_MSAT + 1), 5 => Some(0), 8 | 9 => Some(1 + r.below(100_000)), _ => Some(r.next() % MAX_MSAT) };
 	let desc = if amount.is_some() || r.below(2) == 0 { Some(rand_text(r, 80)) } else { None };
 	let expiry = match r.below(4) { 0 => Some(FAR_FUTURE), 1 => Some(u64::MAX), 2 => Some(FAR_FUTURE + r.below(1 << 40)), _ => None };
 	let issuer = if r.below(3) == 0 { Some(rand_text(r, 30)) } else { None };
@@ -836,7 +873,7 @@ fn gen_offer(r: &mut Rng, idx: usize, recipient: &Keypair, secp: &Secp256k1<bitc
 		_ => common!(OfferBuilder::deriving_signing_pubkey(recipient.public_key(), &ek, nonce, secp)),
 	};
 	let spec = format!("kind={:?} amount={:?} desc={} expiry={:?} issuer={} paths={} qty={:?} chains={}", kind, amount, desc.is_some(), expiry, issuer.is_some(), npaths, qty, chains.len());
-	let offer = offer.map_err(|e| format!("{} [{}] expected_err={}", e, spec, amount.map(|a| a > MAX_MSAT).unwrap_or(false)))?;
+	let offer = offer.map_err(|e| format!("{} [{}] expected_err={}", e, spec, amount.map(|a| a > MAX_MSAT || a == 0).unwrap_or(false)))?;
 	expect.push(("amount".into(), format!("{:?}", amount.map(|a| Amount::Bitcoin { amount_msats: a }))));
 	expect.push(("description".into(), format!("{:?}", desc)));
 	expect.push(("expiry".into(), format!("{:?}", expiry.map(Duration::from_secs))));
@@ -900,7 +937,7 @@ fn flip_all_bits(kind: &str, bytes: &[u8], every: usize) -> (u64, Vec<String>) {
 	(n, viol)
 }
 
-fn gen_b12(r: &mut Rng, thorough: bool) {
+fn gen_b12(r: &R, thorough: bool) {
 	let secp = Secp256k1::new();
 	let recipient = Keypair::from_secret_key(&secp, &SecretKey::from_slice(&[43; 32]).unwrap());
 	let n = if thorough { 240 } else { 40 };
@@ -972,7 +1009,7 @@ fn gen_b12(r: &mut Rng, thorough: bool) {
 			macro_rules! opts { ($b: expr) => {{ let mut b = $b; if let Some(e) = rel_exp { b = b.relative_expiry(e); } if with_fallback { b = b.fallback_v0_p2wpkh(&bitcoin::WPubkeyHash::from_slice(&[7u8; 20]).unwrap()); } b }}; }
 			match o.kind {
 				OfferKind::DerivedMeta | OfferKind::DerivedPaths => {
-					let v = if o.kind == OfferKind::DerivedPaths { req.clone().verify_using_recipient_data(o.nonce, &ExpandedKey::new(o.key), &secp) } else { req.clone().verify_using_metadata(&ExpandedKey::new(o.key), &secp) };
+					let v = if o.offer.metadata().is_none() { req.clone().verify_using_recipient_data(o.nonce, &ExpandedKey::new(o.key), &secp) } else { req.clone().verify_using_metadata(&ExpandedKey::new(o.key), &secp) };
 					match v.map_err(|_| "own request refused by metadata check".to_string())? {
 						InvoiceRequestVerifiedFromOffer::DerivedKeys(v) => opts!(v.respond_using_derived_keys_no_std(pps.clone(), phash, created_at).map_err(|e| format!("{:?}", e))?).build_and_sign(&secp).map_err(|e| format!("{:?}", e)),
 						InvoiceRequestVerifiedFromOffer::ExplicitKeys(v) => opts!(v.respond_with_no_std(pps.clone(), phash, created_at).map_err(|e| format!("{:?}", e))?).build().map_err(|e| format!("{:?}", e))?.sign(|m: &lightning::offers::invoice::UnsignedBolt12Invoice| Ok(secp.sign_schnorr_no_aux_rand(m.as_ref().as_digest(), &recipient))).map_err(|e| format!("{:?}", e)),
@@ -1007,7 +1044,7 @@ fn gen_b12(r: &mut Rng, thorough: bool) {
 			},
 		}
 		// --- static invoice (offers with derived keys and paths only)
-		if o.kind == OfferKind::DerivedPaths && o.offer.chains().len() <= 1 {
+		if (o.kind == OfferKind::DerivedPaths || o.kind == OfferKind::DerivedMeta) && o.offer.metadata().is_none() && o.offer.chains().len() <= 1 {
 			let res = guard(|| StaticInvoiceBuilder::for_offer_using_derived_keys(&o.offer, vec![pay_path(r)], vec![msg_path(r)], created_at, &ExpandedKey::new(o.key), o.nonce, &secp).and_then(|b| b.build_and_sign(&secp)).map_err(|e| format!("{:?}", e)));
 			match res {
 				Ok(Ok(si)) => {
@@ -1086,6 +1123,21 @@ fn gen_b12(r: &mut Rng, thorough: bool) {
 	for (i, sg) in signed.iter().enumerate() {
 		let do_flip = i % stepk == 0;
 		let (nf, viol) = if do_flip { flip_all_bits(sg.kind, &sg.bytes, 1) } else { (0, vec![]) };
+		// an extra unknown odd record outside the signature range must invalidate the signature (or the parse)
+		let mut viol = viol;
+		if do_flip {
+			if let Some(recs) = tlv_records(&sg.bytes) {
+				for nt in [239u64, 1001, 159, 1_000_000_001, 2_000_000_001, 3_000_000_001] {
+					if recs.iter().any(|x| x.0 == nt) { continue; }
+					let pos = recs.iter().find(|x| x.0 > nt).map(|x| x.1).unwrap_or(sg.bytes.len());
+					let mut b = sg.bytes[..pos].to_vec();
+					b.extend(tlv_rec(nt, &[1, 2, 3]));
+					b.extend_from_slice(&sg.bytes[pos..]);
+					let res = parse_b12(sg.kind, b.clone());
+					if !res.starts_with("Err") && viol.len() < 3 { viol.push(format!("inserted unknown record type {} -> {}: {}", nt, res, hex(&b))); }
+				}
+			}
+		}
 		// truncations
 		let mut tviol = vec![];
 		if do_flip { for cut in 0..sg.bytes.len() { let res = parse_b12(sg.kind, sg.bytes[..cut].to_vec()); if !res.starts_with("Err") && tviol.len() < 3 { tviol.push(format!("prefix {} -> {}", cut, res)); } } }
@@ -1154,7 +1206,7 @@ fn vreq(req: InvoiceRequest, key: &[u8; 32], nonce: Option<Nonce>, secp: &Secp25
 	match r { Ok(InvoiceRequestVerifiedFromOffer::DerivedKeys(_)) => "DerivedKeys", Ok(InvoiceRequestVerifiedFromOffer::ExplicitKeys(_)) => "Ok", Err(()) => "Err" }
 }
 
-fn metadata_cases(r: &mut Rng, idx: usize, o: &OfferOut, req: &InvoiceRequest, payer_ek: &ExpandedKey, payer_nonce: Nonce, payment_id: PaymentId, secp: &Secp256k1<bitcoin::secp256k1::All>) {
+fn metadata_cases(r: &R, idx: usize, o: &OfferOut, req: &InvoiceRequest, payer_ek: &ExpandedKey, payer_nonce: Nonce, payment_id: PaymentId, secp: &Secp256k1<bitcoin::secp256k1::All>) {
 	let derived_md = o.kind == OfferKind::DerivedMeta && o.offer.metadata().is_some();
 	let derived_paths = (o.kind == OfferKind::DerivedMeta || o.kind == OfferKind::DerivedPaths) && o.offer.metadata().is_none();
 	let other_key = r32(r);
@@ -1216,7 +1268,7 @@ fn resign(bytes_altered: &[u8], recipient: &Keypair, secp: &Secp256k1<bitcoin::s
 	Some(out)
 }
 
-fn invoice_metadata_cases(r: &mut Rng, idx: usize, ib: &[u8], payer_key: [u8; 32], recipient: &Keypair, secp: &Secp256k1<bitcoin::secp256k1::All>, iv: &str) {
+fn invoice_metadata_cases(r: &R, idx: usize, ib: &[u8], payer_key: [u8; 32], recipient: &Keypair, secp: &Secp256k1<bitcoin::secp256k1::All>, iv: &str) {
 	let other_key = r32(r);
 	let emit = |case: &str, key: &[u8; 32], bytes: &[u8], expect: &str| {
 		let v = guard(|| match Bolt12Invoice::try_from(bytes.to_vec()) { Ok(i) => match i.verify_using_metadata(&ExpandedKey::new(*key), secp) { Ok(_) => "Ok", Err(()) => "Err" }, Err(_) => "ParseErr" }).unwrap_or("PANIC");
@@ -1248,10 +1300,10 @@ fn main() {
 			let thorough = args.get(2).map(|s| s == "thorough").unwrap_or(false);
 			let seed: u64 = args.get(3).and_then(|s| s.parse().ok()).unwrap_or(1);
 			let what = args.get(4).map(|s| s.as_str()).unwrap_or("all");
-			let mut r = Rng(seed ^ 0xC18);
-			if what == "all" || what == "b11" { gen_b11(&mut r, thorough); }
-			let mut r = Rng(seed ^ 0xC18C18);
-			if what == "all" || what == "b12" { gen_b12(&mut r, thorough); }
+			let r = R::new(seed ^ 0xC18);
+			if what == "all" || what == "b11" { gen_b11(&r, thorough); }
+			let r = R::new(seed ^ 0xC18C18);
+			if what == "all" || what == "b12" { gen_b12(&r, thorough); }
 			J::new("done").emit();
 		},
 		_ => {
